@@ -10,13 +10,15 @@
 EXTENDS Integers, Sequences, TLC, Json
 CONSTANTS Depth, Pre, Deep
 
-VARIABLES script, nd, up, dead
-vars == <<script, nd, up, dead>>
-Init == script = <<>> /\ nd = Pre /\ up = TRUE /\ dead = FALSE
+VARIABLES script, nd, up, dead, sent
+vars == <<script, nd, up, dead, sent>>
+Init == script = <<>> /\ nd = Pre /\ up = TRUE /\ dead = FALSE /\ sent = FALSE
 
-Base == {"Declare", "Post0", "PostPlain", "PostUnknown", "Commit0", "Rollback0", "DischUnknown", "CtlDetach", "CtlAttach", "Recv", "CommitPost0", "RollbackPost0"}
+Base == {"Declare", "Post0", "PostPlain", "PostUnknown", "Commit0", "Rollback0", "DischUnknown", "CtlDetach", "CtlAttach", "Recv", "CommitPost0", "RollbackPost0",
+         \* retirement: the resource sends a delivery on L4 and the controller settles it under a transaction (or plainly)
+         "SendU", "Retire0", "RetirePlain", "PEnd"}
 Two == {"Post1", "Commit1", "Rollback1", "PostBig0"}
-More == {"Post0b", "Recvb"}
+More == {"Post0b", "Recvb", "Retire1", "RetireUnknown"}
 Ev == Base \cup Two \cup (IF Deep THEN More ELSE {})
 Enabled(e) ==
   /\ ~dead
@@ -25,10 +27,13 @@ Enabled(e) ==
   /\ (e \in {"Declare", "Commit0", "Rollback0", "Commit1", "Rollback1", "DischUnknown", "CtlDetach", "CommitPost0", "RollbackPost0"} => up)
   /\ (e = "Declare" => nd < 3)
   /\ (e = "CtlAttach" => ~up)
+  /\ (e = "SendU" => ~sent) /\ (e \in {"Retire0", "Retire1", "RetirePlain", "RetireUnknown"} => sent)
+  /\ (e = "Retire0" => nd >= 1) /\ (e = "Retire1" => nd >= 2)
 Next == \E e \in Ev : /\ Len(script) < Depth /\ Enabled(e) /\ script' = Append(script, e)
                       /\ nd' = IF e = "Declare" THEN nd + 1 ELSE nd
                       /\ up' = IF e = "CtlDetach" THEN FALSE ELSE IF e = "CtlAttach" THEN TRUE ELSE up
-                      /\ dead' = (e = "PostUnknown")
+                      /\ dead' = (e \in {"PostUnknown", "PEnd", "RetireUnknown"})
+                      /\ sent' = (sent \/ e = "SendU")
 Spec == Init /\ [][Next]_vars
 
 PF(perf, f) == [e |-> "PFrame", perf |-> perf, ch |-> 3, f |-> f]
@@ -48,7 +53,10 @@ Prefix == << [e |-> "AAccept", cfg |-> [mfs |-> 4096]], [e |-> "PHeader", kind |
              [e |-> "AAcceptSession", s |-> "s1", cfg |-> [noi |-> 1000, iw |-> 100, ow |-> 100, txn |-> TRUE]], PF("begin", [rch |-> -1, noi |-> 0, iw |-> 100, ow |-> 100]),
              CtlAtt,
              [e |-> "AAcceptLink", l |-> "L2", s |-> "s1", cfg |-> [credit |-> 20]], PF("attach", [name |-> "L2", h |-> 6, role |-> "s", snd |-> 2, rcv |-> 0, idc |-> 0]),
-             [e |-> "AAcceptLink", l |-> "L3", s |-> "s1", cfg |-> [credit |-> 20]], PF("attach", [name |-> "L3", h |-> 7, role |-> "s", snd |-> 2, rcv |-> 0, idc |-> 0]) >>
+             [e |-> "AAcceptLink", l |-> "L3", s |-> "s1", cfg |-> [credit |-> 20]], PF("attach", [name |-> "L3", h |-> 7, role |-> "s", snd |-> 2, rcv |-> 0, idc |-> 0]),
+             [e |-> "AAcceptLink", l |-> "L4", s |-> "s1", cfg |-> [credit |-> 20]], PF("attach", [name |-> "L4", h |-> 8, role |-> "r", snd |-> 2, rcv |-> 0]),
+             [e |-> "PFrame", perf |-> "flow", ch |-> 3, ech |-> 0, f |-> [nii |-> [seen |-> 0], iw |-> 100, noi |-> 0, ow |-> 100, h |-> 8, dc |-> 0, lc |-> 10]] >>
+Retire(st) == [e |-> "PFrame", perf |-> "disposition", ch |-> 3, ech |-> 0, f |-> [role |-> "r", first |-> [d |-> 0], last |-> -1, settled |-> TRUE, state |-> st]]
 \* concrete events of script element e, given the number of peer deliveries so far (d) and the next message number (m)
 Conc(e, d, m) ==
   CASE e = "Declare" -> <<Decl(d)>>
@@ -67,9 +75,15 @@ Conc(e, d, m) ==
     [] e = "RollbackPost0" -> <<Disch(d, Ref(0), TRUE, TRUE), Post(6, d + 1, m, Ref(0))>>
     [] e = "CtlDetach" -> <<PF("detach", [h |-> 9, closed |-> TRUE, err |-> ""])>>
     [] e = "CtlAttach" -> <<CtlAtt>>
+    [] e = "SendU" -> <<[e |-> "ASend", l |-> "L4", m |-> 900, len |-> 20]>>
+    [] e = "Retire0" -> <<Retire([k |-> "txn", cond |-> "accepted", txn |-> Ref(0)])>>
+    [] e = "Retire1" -> <<Retire([k |-> "txn", cond |-> "accepted", txn |-> Ref(1)])>>
+    [] e = "RetireUnknown" -> <<Retire([k |-> "txn", cond |-> "accepted", txn |-> [raw |-> <<6, 6>>]])>>
+    [] e = "RetirePlain" -> <<Retire([k |-> "accepted", cond |-> "", txn |-> <<>>])>>
+    [] e = "PEnd" -> <<PF("end", [err |-> ""])>>
     [] e = "Recv" -> <<[e |-> "ARecv", l |-> "L2"]>>
     [] e = "Recvb" -> <<[e |-> "ARecv", l |-> "L3"]>>
-Dels(e) == IF e \in {"CtlDetach", "CtlAttach", "Recv", "Recvb"} THEN 0 ELSE IF e \in {"CommitPost0", "RollbackPost0"} THEN 2 ELSE 1
+Dels(e) == IF e \in {"CtlDetach", "CtlAttach", "Recv", "Recvb", "SendU", "Retire0", "Retire1", "RetirePlain", "RetireUnknown", "PEnd"} THEN 0 ELSE IF e \in {"CommitPost0", "RollbackPost0"} THEN 2 ELSE 1
 Msgs(e) == IF e \in {"Post0", "Post1", "Post0b", "PostBig0", "PostPlain", "PostUnknown", "CommitPost0", "RollbackPost0"} THEN 1 ELSE 0
 RECURSIVE Body(_, _, _, _), Decls(_)
 Body(sc, i, d, m) == IF i > Len(sc) THEN <<>> ELSE Conc(sc[i], d, m) \o Body(sc, i + 1, d + Dels(sc[i]), m + Msgs(sc[i]))
